@@ -13,7 +13,8 @@ from pipeline import correspondence, parse_loc, pipe_req, RANGE
 THEOREMS = ["Rva.lex_covers", "Rva.lexNext_progress", "Rva.lexNext_none", "Rva.lexNext_start",
             "Rva.recover_spec", "Rva.recover_no_newline", "Rva.recover_suffix",
             "Rva.parseInst_good", "Rva.parseNode_good", "Rva.parseStep_suffix", "Rva.parseStep_eof",
-            "Rva.parseStep_progress"]
+            "Rva.parseStep_progress", "Rva.parseNode_eh", "Rva.parseStep_error_located",
+            "Rva.parseStep_error_in_items"]
 
 BAD_LINES = ["add t0, t1", "addi a0, a0", "lw a0", "foo a0, a1", "mov a0, a1", "addi a0, a0, 99999999999",
              "addi a0, q7, 1", "li a0, 1 +", "% li a0, 1", "li a0, 1 é", "li a0 : 1", "add t0, t1, t2 \r",
@@ -105,7 +106,7 @@ def meaningful(line):
 
 def run(res, tier, seed):
     rng = random.Random(seed)
-    proof_ok = proof_stage(res, "Rva.Proofs.C07b", THEOREMS, extra_modules=["Rva.Proofs.C07", "Rva.Proofs.LexTotal"])
+    proof_ok = proof_stage(res, "Rva.Proofs.C07c", THEOREMS, extra_modules=["Rva.Proofs.C07b", "Rva.Proofs.C07", "Rva.Proofs.LexTotal"])
     n = 120 if tier == "quick" else 12000
     inputs, meta = [], []
     for _ in range(n):
@@ -225,8 +226,9 @@ def run(res, tier, seed):
         body = one_per_line(rng, rng.randrange(0, 4))
         closed = rng.random() < 0.5
         head = rng.choice([".macro foo", ".macro push_all", "  .macro m2 x y", ".MACRO big"])
-        close = [rng.choice([".endmacro", "  .endmacro", ".ENDMACRO"])] if closed else \
-            rng.choice([[], [".end_macro"], [".endm"], ["# .endmacro"]])
+        # both spellings close it: RARS's `.end_macro` and the `.endmacro` this project started with
+        close = [rng.choice([".endmacro", "  .endmacro", ".ENDMACRO", ".end_macro", "\t.end_macro", ".End_Macro"])] \
+            if closed else rng.choice([[], [".endm"], ["# .endmacro"], ["# .end_macro"], [".end_macr"]])
         region = [head] + body + close
         if not closed:
             after = []
